@@ -4,8 +4,9 @@
 package quotaresource
 
 // NewSharedState() returns the in-memory state in this tree (context.go, //go:build !pro).
-//@ devirt SharedStateI => *memoryState
+//@ devirtall SharedStateI => *memoryState
 //@ pure APIStreamI.GetID
+//@ pure APIStreamI.GetHeader
 
 //@ ghost func msOf(q *quota) *lunarContext.memoryState[int64] = q.context.(*lunarContext.memoryState[int64])
 // what newQuota establishes for a transactional (cost 1, no spillover) quota; none of these fields is written afterwards
@@ -18,14 +19,19 @@ package quotaresource
 //@ field quota.extractCountF
 //@   ensures result0 == 1 && result1 == nil
 
+//@ ghost field quota.gCounted gmap[string]bool     // request ids for which an AtomicIncWindow of this quota succeeded
 //@ monitor quota.mutex
 //@   self q
-//@   protects allowedByReqID
+//@   protects allowedByReqID, gCounted
 //@   invariant[memo] q.allowedByReqID != nil
+//@   invariant[counted] forall(r, string, in(r, q.allowedByReqID) && q.allowedByReqID[r] ==> q.gCounted[r])
 
 //@ func (*quota).Inc
 //@   prop C01
 //@   requires quotaOK(q)
+//@   allocates map
+//@   modifies q.allowedByReqID, q.gCounted, mapof(q.allowedByReqID), smapof(cmOf(msOf(q)).ctx), msOf(q).gAdm, msOf(q).gEnd, msOf(q).gLast, now
+//@   on return when result == increased do q.gCounted[APIStream.GetID()] = true
 //@   ensures[already]  seq: old(in(APIStream.GetID(), q.allowedByReqID)) ==> result == alreadyIncreased
 //@   ensures[verdict]  seq: !old(in(APIStream.GetID(), q.allowedByReqID)) ==> (result == increased || result == blocked)
 //@   ensures[memo-increased] seq: result == increased ==> in(APIStream.GetID(), q.allowedByReqID) && q.allowedByReqID[APIStream.GetID()]
@@ -36,9 +42,81 @@ package quotaresource
 
 //@ func (*quota).Allowed
 //@   prop C01
+//@   modifies mapof(q.allowedByReqID), now
 //@   ensures[verdict] seq: result == (old(in(APIStream.GetID(), q.allowedByReqID)) && old(q.allowedByReqID[APIStream.GetID()]))
+//@   ensures[counted] result ==> q.gCounted[APIStream.GetID()]
 //@   ensures[consumed] seq: !in(APIStream.GetID(), q.allowedByReqID)
 
 //@ func (*quota).Dec
 //@   prop C01
+//@   modifies mapof(q.allowedByReqID), now
 //@   ensures[forgotten] seq: !in(APIStream.GetID(), q.allowedByReqID)
+
+// ---- the fixed-window strategy: one quota object per (quota id, group header value), parents up the hierarchy ----
+//@ ghost var gPendingInc gmap[string]bool     // request ids for which Inc ran and Allowed has not consumed the verdict yet
+//@ ghost var gLastAllowed bool                 // the answer of the latest Allowed call
+//@ ghost field fixedWindow.gDepth int          // distance from the root of the quota hierarchy
+//@ ghost field fixedWindow.gIncs int           // number of Inc calls received by this strategy object
+
+//@ ghost func fwMS(fw *fixedWindow) *lunarContext.memoryState[int64] = fw.context.(*lunarContext.memoryState[int64])
+//@ ghost func parentFW(fw *fixedWindow) *fixedWindow = fw.parent.quota.(*fixedWindow)
+//@ ghost func groupOf(fw *fixedWindow, s publicTypes.APIStreamI) string = ite(fw.groupByKey != DefaultGroup && second(s.GetHeader(fw.groupByKey)), s.GetHeader(fw.groupByKey), DefaultGroup)
+//@ ghost func groupKey(fw *fixedWindow, s publicTypes.APIStreamI) string = sprintf("%s_%s", fw.quotaID, groupOf(fw, s))
+// a transactional fixed-window strategy without monthly renewal and spillover whose shared state is private to it,
+// and whose parent (if any) is again such a strategy closer to the root
+//@ ghost func fwOK(fw *fixedWindow) bool = fw != nil && fw.monthlyRenewal == nil && fw.spilloverData == nil && typeis(fw.context, *lunarContext.memoryState[int64]) && msValid(fwMS(fw)) && fw.window > 0 && fw.window % 1000000000 == 0 && forall(k, string, fwMS(fw).gWin[k] == fw.window) && fw.gDepth >= 0 && (fw.parent != nil ==> typeis(fw.parent.quota, *fixedWindow) && parentFW(fw) != nil && allocated(parentFW(fw)) && parentFW(fw).gDepth < fw.gDepth)
+//@ ghost func worldOK() bool = forall(o, *fixedWindow, allocated(o) ==> fwOK(o))
+
+//@ monitor fixedWindow.getQuotaLock
+//@   self fw
+//@   protects quotaGroups
+//@   invariant[groups-map]   fw.quotaGroups != nil
+//@   invariant[groups-ok]    forall(k, string, in(k, fw.quotaGroups) ==> quotaOK(fw.quotaGroups[k]) && fw.quotaGroups[k].allowedByReqID != nil)
+//@   invariant[groups-alloc] forall(k, string, in(k, fw.quotaGroups) ==> allocated(fw.quotaGroups[k]))
+//@   invariant[groups-key]   forall(k, string, in(k, fw.quotaGroups) ==> fw.quotaGroups[k].quotaKey == k)
+//@   invariant[groups-cfg]   forall(k, string, in(k, fw.quotaGroups) ==> fw.quotaGroups[k].maxCount == fw.max && fw.quotaGroups[k].window == fw.window && fw.quotaGroups[k].context == fw.context)
+//@   invariant[distinct] forall(k1, string, forall(k2, string, in(k1, fw.quotaGroups) && in(k2, fw.quotaGroups) && k1 != k2 ==> fw.quotaGroups[k1] != fw.quotaGroups[k2]))
+
+//@ func (*fixedWindow).getQuota
+//@   prop C01
+//@   requires fwOK(fw) && allocated(fw)
+//@   allocates quota, map
+//@   modifies mapof(fw.quotaGroups), fwMS(fw).clock, now
+//@   ensures[ok]        result1 == nil && quotaOK(result0) && allocated(result0) && result0.allowedByReqID != nil
+//@   ensures[keyed]     result0.quotaKey == groupKey(fw, APIStream) && result0.maxCount == fw.max && result0.window == fw.window && result0.context == fw.context
+//@   ensures[same-key]  seq: in(groupKey(fw, APIStream), fw.quotaGroups) && result0 == fw.quotaGroups[groupKey(fw, APIStream)]
+//@   ensures[stable]    seq: old(in(groupKey(fw, APIStream), fw.quotaGroups)) ==> result0 == old(fw.quotaGroups[groupKey(fw, APIStream)])
+//@   ensures[others]    seq: forall(k, string, k != groupKey(fw, APIStream) ==> (in(k, fw.quotaGroups) <==> old(in(k, fw.quotaGroups))) && fw.quotaGroups[k] == old(fw.quotaGroups[k]))
+//@   ensures[fresh-empty] seq: !old(in(groupKey(fw, APIStream), fw.quotaGroups)) ==> forall(r, string, !in(r, result0.allowedByReqID))
+//@   ensures[world]     old(worldOK()) ==> worldOK()
+
+//@ func (*fixedWindow).Inc
+//@   prop C01
+//@   devirt QuotaResourceI => *fixedWindow
+//@   requires[world] worldOK()
+//@   requires[self] allocated(fw) && fw != nil
+//@   decreases fw.gDepth
+//@   allocates quota, map
+//@   modifies heap, gPendingInc, now
+//@   on entry do gPendingInc[APIStream.GetID()] = true
+//@   on return do fw.gIncs = old(fw.gIncs) + 1
+//@   ensures[ok]      result == nil
+//@   ensures[incs]    fw.gIncs == old(fw.gIncs) + 1
+//@   ensures[parent-iff-increased] seq: fw.parent != nil ==> old(parentFW(fw)).gIncs == old(parentFW(fw).gIncs) + ite(isIncreased == increased, 1, 0)
+//@   ensures[pending] gPendingInc[APIStream.GetID()]
+//@   ensures[world]   worldOK()
+
+//@ func (*fixedWindow).Allowed
+//@   prop C01
+//@   devirt QuotaResourceI => *fixedWindow
+//@   requires[world] worldOK()
+//@   requires[self] allocated(fw) && fw != nil
+//@   requires[inc-first] gPendingInc[APIStream.GetID()]
+//@   decreases fw.gDepth
+//@   allocates quota, map
+//@   modifies heap, gPendingInc, gLastAllowed, now
+//@   on return do gLastAllowed = result0; gPendingInc[APIStream.GetID()] = false
+//@   ensures[ok]    result1 == nil
+//@   ensures[last]  gLastAllowed == result0
+//@   ensures[only-if-counted] seq: result0 ==> old(in(groupKey(fw, APIStream), fw.quotaGroups)) && old(fw.quotaGroups[groupKey(fw, APIStream)].gCounted[APIStream.GetID()])
+//@   ensures[world] worldOK()
